@@ -483,7 +483,7 @@ def terminates(block):
     return False
 
 
-def guards_of(node, stop=None):
+def guards_of(node, stop=None, asserts=True):
     """
     Conditions known to hold when ``node`` executes, from the syntax: a list of (test_expr, polarity).
     Includes enclosing if/while/ifexp branches and earlier sibling early-exits
@@ -493,7 +493,22 @@ def guards_of(node, stop=None):
     out = []
     child = node
     parent = getattr(node, "_parent", None)
-    while parent is not None and parent is not stop and not isinstance(parent, (ast.FunctionDef, ast.AsyncFunctionDef, ast.Lambda, ast.ClassDef, ast.Module)):
+    while parent is not None and not isinstance(parent, (ast.FunctionDef, ast.AsyncFunctionDef, ast.Lambda, ast.ClassDef, ast.Module)):
+        if parent is stop:
+            # conditions established inside the stop node's own block (an earlier `if c: continue` in the loop body) still hold
+            for field in ("body", "orelse", "finalbody"):
+                blk = getattr(parent, field, None)
+                if isinstance(blk, list) and any(child is s for s in blk):
+                    for s in blk:
+                        if s is child:
+                            break
+                        if isinstance(s, ast.If) and terminates(s.body) and not s.orelse:
+                            out.append((s.test, False))
+                        elif isinstance(s, ast.If) and s.orelse and terminates(s.orelse) and not terminates(s.body):
+                            out.append((s.test, True))
+                        elif isinstance(s, ast.Assert) and asserts:
+                            out.append((s.test, True))
+            return out
         if isinstance(parent, (ast.If, ast.While)):
             if any(child is s for s in parent.body):
                 out.append((parent.test, True))
@@ -525,7 +540,7 @@ def guards_of(node, stop=None):
                         out.append((s.test, False))
                     elif isinstance(s, ast.If) and s.orelse and terminates(s.orelse) and not terminates(s.body):
                         out.append((s.test, True))
-                    elif isinstance(s, ast.Assert):
+                    elif isinstance(s, ast.Assert) and asserts:
                         out.append((s.test, True))
         child = parent
         parent = getattr(parent, "_parent", None)
@@ -536,6 +551,6 @@ def guards_of(node, stop=None):
                 break
             if isinstance(s, ast.If) and terminates(s.body) and not s.orelse:
                 out.append((s.test, False))
-            elif isinstance(s, ast.Assert):
+            elif isinstance(s, ast.Assert) and asserts:
                 out.append((s.test, True))
     return out
